@@ -60,6 +60,7 @@ type Scenario struct {
 	Peers       int            `json:"peers,omitempty"`
 	StallAt     int            `json:"stall_at,omitempty"` // tcp, one peer: before its n-th frame (1-based) the peer sends only StallOctets of it, pauses longer than the server\'s read timeout, then carries on
 	StallOctets int            `json:"stall_octets,omitempty"`
+	PkgPolicy   bool           `json:"pkg_policy,omitempty"`      // the accept policy is installed as the package-wide default (dns.DefaultMsgAcceptFunc) and Server.MsgAcceptFunc is left unset
 	Soak        string         `json:"soak,omitempty"`            // udp, rare: "idle" the server runs with its default read timeout (2 s) and nothing arrives for 2100 s before the traffic; "runts" 1100 one-octet datagrams arrive before it. Either way what comes afterwards is served like anything else
 	DefaultMux  bool           `json:"default_mux,omitempty"`     // mux: the package-level Handle / HandleFunc / HandleRemove and DefaultServeMux instead of a ServeMux of the run's own
 	NoInvalidFn bool           `json:"no_invalid_func,omitempty"` // Server.MsgInvalidFunc is left unset (the default configuration): reports cannot be observed, everything else can
@@ -143,6 +144,7 @@ func Gen(seed uint64, tier string) any {
 	sc.UDPSock = sc.Transport == "udp" && core.Chance(r, 50)
 	sc.PostYield = core.Chance(r, 35)
 	sc.NoInvalidFn = core.Chance(r, 15)
+	sc.PkgPolicy = core.Chance(r, 20)
 
 	if sc.Transport == "udp" && core.Chance(r, 25) {
 		sc.ShutAfter = 5 + r.IntN(60)
@@ -404,8 +406,11 @@ func (a *adm) accept(dh dns.Header) dns.MsgAcceptAction {
 		}
 		return dns.MsgAccept
 	}
-	return dns.DefaultMsgAcceptFunc(dh)
+	return libDefaultAccept(dh)
 }
+
+// the library's own default policy, taken before any run replaces the package variable
+var libDefaultAccept = dns.DefaultMsgAcceptFunc
 
 //go:norace
 func (a *adm) invalidFunc(m []byte, err error) {
@@ -454,6 +459,26 @@ func (a *adm) ServeDNS(w dns.ResponseWriter, r *dns.Msg) {
 		}
 	}
 	k.Yield("h.enter", 0)
+	if a.sc.Yield && a.sc.Transport == "udp" {
+		// a handler that takes a while: other datagrams are read meanwhile, into whatever buffer the server
+		// hands out next - the request this handler holds must stay what it was
+		k.WaitSteps("h.hold", 2+int(r.Id%4), time.Millisecond)
+		if exp := a.byID[r.Id]; exp != nil {
+			seen := exp
+			if len(seen) > a.sc.UDPSize {
+				seen = seen[:a.sc.UDPSize]
+			}
+			em := new(dns.Msg)
+			if em.Unpack(append([]byte(nil), seen...)) == nil {
+				k.Lock()
+				a.res.Stats["oracle.D1_request_stable_while_handled"]++
+				if !reflect.DeepEqual(r, em) {
+					a.res.Fail("D1", "handler-request-changed", "the request a handler was given (id %d) changed while the handler held it: it shares memory with a receive buffer the server reused", r.Id)
+				}
+				k.Unlock()
+			}
+		}
+	}
 	a.mux.ServeDNS(w, r)
 }
 
@@ -632,6 +657,13 @@ func runAdmission(sc *Scenario, res *core.Result, verbose bool) {
 	a.mux = dns.NewServeMux()
 	a.mux.Handle("test.", recHandler{a})
 	a.srv = &dns.Server{Handler: a, MsgAcceptFunc: a.accept, MsgInvalidFunc: a.invalidFunc, UDPSize: sc.UDPSize, ReadTimeout: time.Hour, IdleTimeout: hour, MaxTCPQueries: -1}
+	if sc.PkgPolicy {
+		// an application that replaces the library's default policy for all its servers
+		keep := dns.DefaultMsgAcceptFunc
+		dns.DefaultMsgAcceptFunc, a.srv.MsgAcceptFunc = a.accept, nil
+		defer func() { dns.DefaultMsgAcceptFunc = keep }()
+		res.Bump("cover.package_wide_accept_policy")
+	}
 	if sc.NoInvalidFn {
 		a.srv.MsgInvalidFunc = nil
 		res.Bump("cover.default_invalid_func")
